@@ -30,7 +30,7 @@ func c07ExprType(expr string) string {
 		return tscommon.TSNumber
 	case strings.HasSuffix(expr, `=== "true"`):
 		return tscommon.TSBoolean
-	case strings.HasPrefix(expr, "pathParams["), strings.HasPrefix(expr, "params.get("):
+	case strings.HasPrefix(expr, "pathParams[") && strings.HasSuffix(expr, "]"), strings.HasPrefix(expr, "params.get("):
 		return tscommon.TSString
 	}
 	return "?"
@@ -78,9 +78,7 @@ func VerifC07HandlerArg() {
 	verif.Assert("C07/handler/path-field-is-built", pExpr != "")
 	verif.Assert("C07/handler/query-value-has-declared-type", c07ExprType(qExpr) == tscommon.TSFieldType(qf))
 	if tscommon.TSFieldType(pf) != tscommon.TSString {
-		verif.Expect("KF-C07-ts-server-passes-raw-path-segment-string-for-non-string-field", c07ExprType(pExpr) == tscommon.TSFieldType(pf))
-		verif.Reach("C07/handler/kf-path")
-		return
+		verif.Reach("C07/handler/non-string-path") // region of the defect repaired in the TS server emitter
 	}
 	verif.Assert("C07/handler/path-value-has-declared-type", c07ExprType(pExpr) == tscommon.TSFieldType(pf))
 	verif.Reach("C07/handler/decided")
